@@ -61,7 +61,7 @@ class Ty:
 
     def lean(self):
         k = self.kind
-        if k == "f64":
+        if k in ("f64", "q"):
             return "Rat"
         if k == "int":
             return "Int"
@@ -81,6 +81,8 @@ class Ty:
             return "Int"
         if k == "tuple":
             return " × ".join(_paren(t.lean()) for t in self.item)
+        if k == "string":
+            return "List Char"
         if k == "option":
             return f"Option {_paren(self.item.lean())}"
         if k == "ma":
@@ -104,6 +106,7 @@ def _paren(s):
 
 
 F64 = Ty("f64")
+Q = Ty("q")                        # a float64 value read at the EXACT layer: arithmetic on it is rational arithmetic
 F64E = Ty("f64", elem=True)        # one element of a float64 array treated elementwise
 INT = Ty("int")
 NAT = Ty("nat")
@@ -113,12 +116,14 @@ REALE = Ty("real", elem=True)
 NATE = Ty("nat", elem=True)
 EREAL = Ty("ereal")
 NONE = Ty("none")
-STR = Ty("str")
+STR = Ty("str")            # a string constant known under the specialisation (no Lean value)
+STRING = Ty("string")      # a string value: the list of its characters
 DATETIME = Ty("datetime")
 TIMEDELTA = Ty("timedelta")
 
 
 UNUSED = Ty("unused")
+RECORD = Ty("record")      # an object parameter whose attribute stores are tracked (`self._scale = val`)
 OBJECT = Ty("object")      # a pyCSEP object parameter, read only through spec["expr_params"]
 
 
@@ -161,6 +166,19 @@ class Val:
 
 def _finite_f(v):
     return v == v and v not in (float("inf"), float("-inf"))
+
+
+def str_lit(t):
+    """Lean list of the characters of a Python string"""
+    def ch(c):
+        if c == "'":
+            return "'\\''"
+        if c == "\\":
+            return "'\\\\'"
+        if not (32 <= ord(c) < 127):
+            raise ValueError("non-printable character in a string literal")
+        return f"'{c}'"
+    return "([" + ", ".join(ch(c) for c in t) + "] : List Char)"
 
 
 def rat_lit(fr):
@@ -215,6 +233,24 @@ CALLS = {
     "d['key'] (d the dict a translated function returns)": "the component of the tuple in key order",
     "map(f, (a, b)) unpacked ; numpy.concatenate([a, b])": "(f a, f b) ; a ++ b",
     "numpy.max / numpy.min (list f64)": "Py.np_max / Py.np_min (fold from the first element; empty array: ValueError not modelled)",
+    "arithmetic / comparisons on values typed `q` in TARGETS (float64 read at the EXACT layer)": "Rat + - * / (no rounding)",
+    "numpy.sum(a[, axis=0|1]) (flat / 2-D `q` array as list of rows)": "Py.qsum ; List.map Py.qsum (axis=1) ; Py.qsumAxis0",
+    "numpy.copy(a)": "identity",
+    "datetime (< <= > >=) datetime ; datetime + datetime.timedelta(days)": "comparison of the microsecond counts ; Py.Datetime.addTd",
+    "self.m(e) for m in TARGETS.self_calls, returned": "`some e`; `return self` without such a call is `none`",
+    "x // 1 ; x % 1 (x float64)": "Py.np_floor ; Py.fmod1 (both exact)",
+    "calendar.isleap(y) (y an integer-valued float)": "Py.isleapF",
+    "datetime.timedelta(seconds=t) / (microseconds=t) (t float64)": "Py.timedeltaOfSecondsF / Py.timedeltaOfMicrosecondsF (CPython's rounding)",
+    "return f(…) with f a translated function that can raise": "f's result, exception included",
+    "string values (TARGETS type STRING): literals, `a + b`, `a == b`, `'c' in s`, `s[k] == 'c'` (k literal)":
+        "List Char: literal list, ++, decide (=), List.contains, Py.strAt? (outside the string: unequal to every character)",
+    "x = datetime.datetime.strptime(s, fmt).replace(tzinfo=datetime.timezone.utc)": "Py.strptimeUtc (ValueError propagates)",
+    "a[:, :k] ; a[:, k] (2-D array as list of rows, k literal)": "List.map (List.take k) ; List.map (Py.getF · k)",
+    "numpy.sort(numpy.unique(x, return_index=True[, axis=0])[1][, kind='stable'])": "Py.firstIdx (indices of the first occurrences)",
+    "x = datetime.datetime(y, m, d, H, M, S) (TARGETS.checked_datetime)": "Py.mkDatetimeChecked (ValueError outside the ranges)",
+    "a call of a raising translated function nested in the right-hand side of an assignment": "evaluated first, in a temporary",
+    "TARGETS.for_body": "the body of one `for` statement as a function of its loop variables",
+    "try: x = f(…); return x / except: pass (f a raising translated function)": "match f … | .ok x => ok x | .error _ => <the rest>",
     "numpy.sort(a) (list f64 / list int)": "Py.np_sort (ascending; stable merge sort by ≤)",
     "numpy.searchsorted(a, v[, side='left'|'right']) (a, v of one dtype)": "Py.searchsorted_left / _right (count of the "
     "leading elements < v / ≤ v: numpy's binary search result when a is ascending)",
@@ -280,6 +316,9 @@ LEAN_RESERVED = {"end", "at", "from", "then", "else", "if", "let", "have", "fun"
 
 def mangle(name):
     """Python identifier -> Lean identifier (reserved words and names the translator itself uses get a trailing `'`)"""
+    if not name.isidentifier():
+        import re as _re
+        name = _re.sub(r"\W+", "_", name).strip("_")
     return name + "'" if name in LEAN_RESERVED or name.startswith("_") else name
 
 
@@ -310,6 +349,13 @@ class Fn:
         self.tmp = 0
         self.param_vals = {}
 
+    def find_callee(self, fn):
+        """the TARGETS entry a call of `fn` means: TARGETS.callees of this function (method calls on self), else the
+        translator's resolution by name / import"""
+        if fn is not None and fn in self.spec.get("callees", {}):
+            return next(t for t in self.tr.targets if t["lean"] == self.spec["callees"][fn])
+        return self.tr.callee(self.relfile, fn)
+
     # ---------------------------------------------------------------- errors
     def bad(self, node, why):
         raise Untranslatable(self.name, getattr(node, "lineno", self.node.lineno), why)
@@ -329,6 +375,28 @@ class Fn:
         if v.ty.kind == "bool":
             return f"(if {v.code} then (1 : Rat) else 0)"
         self.bad(node, f"cannot use {v.ty} as float64")
+
+    def to_string(self, v, node):
+        if v.ty.kind == "string":
+            return v.code
+        if v.ty.kind == "str" and v.is_static and isinstance(v.static, str):
+            try:
+                return str_lit(v.static)
+            except ValueError as ex:
+                self.bad(node, str(ex))
+        self.bad(node, f"cannot use {v.ty} as a string value")
+
+    def to_q(self, v, node):
+        """operand of exact-layer arithmetic: the rational a float64 / int denotes"""
+        if v.ty.kind == "q":
+            return v.code
+        if v.lit is not None and v.ty.kind in ("int", "nat", "f64"):
+            return rat_lit(Fraction(v.lit))
+        if v.ty.kind == "nat":
+            return f"((({v.code} : Nat) : Int) : Rat)"
+        if v.ty.kind == "int":
+            return f"(({v.code} : Int) : Rat)"
+        self.bad(node, f"cannot use {v.ty} at the exact layer")
 
     def to_real(self, v, node):
         self.uses_real = True
@@ -379,6 +447,10 @@ class Fn:
             return v.code
         if ty.kind == "f64":
             return self.to_f64(v, node)
+        if ty.kind == "q":
+            return self.to_q(v, node)
+        if ty.kind == "string":
+            return self.to_string(v, node)
         if ty.kind == "real":
             return self.to_real(v, node)
         if ty.kind == "int" and v.ty.kind == "nat":
@@ -387,6 +459,20 @@ class Fn:
 
     # ---------------------------------------------------------------- expressions
     def expr(self, e, env):
+        ep = self.spec.get("expr_params")
+        if ep and isinstance(e, (ast.Attribute, ast.Call, ast.BinOp, ast.Subscript)):
+            src = ast.unparse(e)
+            if src in ep:       # an expression on object parameters that is a parameter of the specialisation
+                nm, ty = ep[src]
+                if ty.uses_real():
+                    self.uses_real = True
+                r = Val(nm, ty)
+                r.src_expr = src
+                return r
+        se_ = self.spec.get("static_exprs")
+        if se_ and isinstance(e, ast.Call) and ast.unparse(e) in se_:
+            v_ = se_[ast.unparse(e)]        # a test that is constant under the specialisation (e.g. an isinstance check)
+            return Val("true" if v_ else "false", BOOL, static=v_)
         m = getattr(self, "e_" + type(e).__name__, None)
         if m is None:
             self.bad(e, f"expression {type(e).__name__} is not translated")
@@ -447,6 +533,14 @@ class Fn:
         ka, kb = a.ty.kind, b.ty.kind
         elem = a.ty.elem or b.ty.elem
         name = type(op).__name__
+        if name == "Add" and {ka, kb} <= {"string", "str"} and "string" in (ka, kb):
+            return Val(f"({self.to_string(a, node)} ++ {self.to_string(b, node)})", STRING)
+        if "q" in (ka, kb):
+            # exact layer (TARGETS types a float64 array as `q`): no rounding, the hand model's arithmetic
+            sym = {"Add": "+", "Sub": "-", "Mult": "*", "Div": "/"}.get(name)
+            if sym is None:
+                self.bad(node, f"{name} at the exact layer")
+            return Val(f"({self.to_q(a, node)} {sym} {self.to_q(b, node)})", Ty("q", elem))
         if "ereal" in (ka, kb):
             self.uses_real = True
             if ka == "ereal" and kb in ("real", "int", "nat", "f64") and name == "Sub":
@@ -473,6 +567,9 @@ class Fn:
             if not _finite_f(val) or Fraction(val) != Fraction(a.lit) ** b.lit:
                 self.bad(node, "float literal power that is not exact")
             return Val(rat_lit(Fraction(val)), F64, lit=val)
+        if ka == "f64" and b.lit == 1 and kb in ("int", "f64") and name in ("FloorDiv", "Mod"):
+            # x // 1 and x % 1 on a finite float are exact: floor(x) and x - floor(x)
+            return Val(f"(Py.np_floor {a.code})" if name == "FloorDiv" else f"(Py.fmod1 {a.code})", Ty("f64", elem))
         if "f64" in (ka, kb):
             f = {"Add": "fadd", "Sub": "fsub", "Mult": "fmul", "Div": "fdiv"}.get(name)
             if f is None:
@@ -513,6 +610,10 @@ class Fn:
                 return Val(f"(Py.ipow {x} {y})", Ty("int", elem))
         if ka == "bool" and kb == "bool" and name in ("BitAnd", "BitOr"):
             return Val(f"({a.code} {'&&' if name == 'BitAnd' else '||'} {b.code})", Ty("bool", elem))
+        if name == "Add" and ka == "timedelta" and kb == "timedelta":
+            return Val(f"({a.code} + {b.code})", TIMEDELTA)
+        if name == "Add" and ka == "datetime" and kb == "timedelta":
+            return Val(f"(Py.Datetime.addTd {a.code} {b.code})", DATETIME)
         if name == "Sub" and ka == "datetime" and kb == "datetime":
             return Val(f"(Py.Datetime.sub {a.code} {b.code})", TIMEDELTA)
         # `1 - y` style with bool masks (observations > 0) in the real layer is handled by to_real on bools
@@ -532,6 +633,9 @@ class Fn:
             self.bad(node, f"{name} on {a.ty}, {b.ty} (masked arrays: only `scalar - ma` and `ndarray * ma`)")
         if not la and not lb:
             return self.arith(op, a, b, node)
+        if la and not lb and a.ty.item.kind == "list":
+            r = self.lifted(op, Val("r_", a.ty.item), b, node)        # 2-D array (list of rows) with a scalar
+            return Val(f"(List.map (fun r_ => {r.code}) {a.code})", LIST(r.ty.with_elem(False)))
         if la and lb:
             r = self.arith(op, Val("x_", a.ty.item), Val("y_", b.ty.item), node)
             return Val(f"(List.zipWith (fun x_ y_ => {r.code}) {a.code} {b.code})", LIST(r.ty.with_elem(False)))
@@ -559,6 +663,15 @@ class Fn:
                 r = r if name == "Is" else not r
                 return Val("true" if r else "false", BOOL, static=r)
             self.bad(node, "`is` is translated only against None")
+        if name in ("In", "NotIn") and b.ty.kind == "string" and a.ty.kind == "str" and a.is_static and len(a.static) == 1:
+            code = f"(List.contains {b.code} {str_lit(a.static)[2:-14].strip()})"
+            return Val(code if name == "In" else f"(!{code})", BOOL)
+        if {a.ty.kind, b.ty.kind} <= {"string", "str"} and "string" in (a.ty.kind, b.ty.kind) and name in ("Eq", "NotEq"):
+            code = f"(decide ({self.to_string(a, node)} = {self.to_string(b, node)}))"
+            return Val(code if name == "Eq" else f"(!{code})", BOOL)
+        if a.ty.kind == "char?" and b.ty.kind == "str" and b.is_static and len(b.static) == 1 and name in ("Eq", "NotEq"):
+            code = f"({a.code} == some {str_lit(b.static)[2:-14].strip()})"
+            return Val(code if name == "Eq" else f"(!{code})", BOOL)
         if a.is_static and b.is_static and a.ty.kind == b.ty.kind == "str":
             r = {"Eq": a.static == b.static, "NotEq": a.static != b.static}.get(name)
             if r is None:
@@ -582,6 +695,11 @@ class Fn:
             if code is None:
                 self.bad(node, "`!=` in the real layer")
             return Val(code, Ty("bool", elem))
+        if "q" in (ka, kb):
+            return Val(f"(decide ({self.to_q(a, node)} {sym} {self.to_q(b, node)}))", Ty("bool", elem))
+        if ka == "datetime" and kb == "datetime" and name in ("Lt", "LtE", "Gt", "GtE"):
+            # both aware or both naive (a mixed comparison raises TypeError: not modelled)
+            return Val(f"(decide ({a.code}.us {sym} {b.code}.us))", BOOL)
         if "f64" in (ka, kb):
             return Val(f"(decide ({self.to_f64(a, node)} {sym} {self.to_f64(b, node)}))", Ty("bool", elem))
         if ka == "nat" and kb == "nat" or (ka == "nat" and b.lit is not None and b.lit >= 0):
@@ -595,7 +713,7 @@ class Fn:
         if len(e.ops) != 1:
             self.bad(e, "chained comparison")
         a, b = self.expr(e.left, env), self.expr(e.comparators[0], env)
-        if a.ty.kind == "list" and b.ty.kind != "list":
+        if a.ty.kind == "list" and b.ty.kind != "list" and not isinstance(e.ops[0], (ast.Is, ast.IsNot)):
             r = self.compare(e.ops[0], Val("x_", a.ty.item), b, e)
             return Val(f"(List.map (fun x_ => {r.code}) {a.code})", LIST(BOOL))
         return self.compare(e.ops[0], a, b, e)
@@ -669,6 +787,8 @@ class Fn:
             return Val(nm, ty)
         st = self.spec.get("statics", {})
         if d in st:
+            if isinstance(st[d], int) and not isinstance(st[d], bool):
+                return Val(f"({st[d]} : Int)", INT, lit=st[d])
             return Val(None, STR if isinstance(st[d], str) else INT, static=st[d])
         if d in ("datetime.timezone.utc",):
             return Val(None, Ty("utc"), static="utc")
@@ -722,8 +842,20 @@ class Fn:
         self.bad(e, f"attribute .{a} of {v.ty}")
 
     def e_Subscript(self, e, env):
+        if isinstance(e.value, ast.Name) and e.value.id in env and env[e.value.id].ty.kind == "fieldrec" \
+                and isinstance(e.slice, ast.Constant) and isinstance(e.slice.value, str):
+            key_ = f"{e.value.id}[{e.slice.value!r}]"
+            if key_ not in env:
+                self.bad(e, f"unknown field {key_}")
+            return env[key_]
         v = self.expr(e.value, env)
         s = e.slice
+        if v.ty.kind == "string":
+            i = self.expr(s, env) if not isinstance(s, ast.Slice) else None
+            if i is not None and i.lit is not None and isinstance(i.lit, int):
+                # one character; outside the string (IndexError in Python) it compares unequal to every character
+                return Val(f"(Py.strAt? {v.code} ({i.lit} : Int))", Ty("char?"))
+            self.bad(e, "subscript of a string other than a literal index")
         if v.ty.kind == "tuple" and isinstance(s, ast.Constant) and isinstance(s.value, int) and not isinstance(s.value, bool) \
                 and 0 <= s.value < len(v.ty.item):
             i, n = s.value, len(v.ty.item)      # t[k] of a fixed-size tuple / point
@@ -740,10 +872,23 @@ class Fn:
                 return Val(f"(List.reverse {v.code})", v.ty)
             self.bad(e, "slice other than [::-1]")
         if isinstance(s, ast.Tuple) and len(s.elts) == 2 and v.ty.kind == "list" and v.ty.item.kind == "list" \
-                and v.ty.item.item.kind == "f64":
+                and isinstance(s.elts[0], ast.Slice) and s.elts[0].lower is None and s.elts[0].upper is None \
+                and s.elts[0].step is None:
+            c = s.elts[1]
+            if isinstance(c, ast.Slice):
+                if c.lower is None and c.step is None and isinstance(c.upper, ast.Constant) and isinstance(c.upper.value, int) \
+                        and c.upper.value >= 0:
+                    return Val(f"(List.map (fun r_ => List.take {c.upper.value} r_) {v.code})", v.ty)      # a[:, :k]
+                self.bad(e, "column slice other than a[:, :k]")
+            ci = self.expr(c, env)
+            if ci.lit is not None and isinstance(ci.lit, int) and v.ty.item.item.kind in ("f64", "q"):
+                return Val(f"(List.map (fun r_ => Py.getF r_ ({ci.lit} : Int)) {v.code})", LIST(v.ty.item.item))   # a[:, k]
+            self.bad(e, "column subscript other than a[:, k] with a literal k")
+        if isinstance(s, ast.Tuple) and len(s.elts) == 2 and v.ty.kind == "list" and v.ty.item.kind == "list" \
+                and v.ty.item.item.kind in ("f64", "q"):
             r, c = self.expr(s.elts[0], env), self.expr(s.elts[1], env)
             if r.ty.kind == "list" and r.ty.item.kind == "int" and c.ty.kind == "list" and c.ty.item.kind == "int":
-                return Val(f"(Py.get2 {v.code} {r.code} {c.code})", LIST(F64))     # a[rows, cols] for two index arrays
+                return Val(f"(Py.get2 {v.code} {r.code} {c.code})", LIST(v.ty.item.item))     # a[rows, cols] for two index arrays
             self.bad(e, f"2-D subscript with {r.ty}, {c.ty}")
         i = self.expr(s, env)
         if v.ty.kind == "list" and i.ty.kind == "list" and i.ty.item.kind in ("int", "nat") and v.ty.item.kind in ("f64", "int", "nat"):
@@ -760,8 +905,8 @@ class Fn:
             return Val(v.code, IDXARR)          # numpy.nonzero(a)[0] of a flat array
         if v.ty.kind == "list" and i.ty.kind in ("int", "nat"):
             ic = self.to_int(i, e)
-            if v.ty.item.kind == "f64":
-                return Val(f"(Py.getF {v.code} {ic})", Ty("f64", i.ty.elem))
+            if v.ty.item.kind in ("f64", "q"):
+                return Val(f"(Py.getF {v.code} {ic})", Ty(v.ty.item.kind, i.ty.elem))
             if v.ty.item.kind == "int":
                 return Val(f"(Py.getA {v.code} {ic})", Ty("int", i.ty.elem))
             if v.ty.item.kind in ("real", "nat"):
@@ -809,7 +954,7 @@ class Fn:
                 self.uses_real = True
             return Val(f"({o['lean']} " + " ".join(codes) + ")", o["ret"].with_elem(any(v.ty.elem for v in vs)))
         # ---- other translated targets ----
-        callee = self.tr.callee(self.relfile, fn)
+        callee = self.find_callee(fn)
         if callee is not None and fn is not None:
             vs = [self.expr(a, env) for a in args]
             return self.tr.call(self, callee, vs, kw, e, env)
@@ -910,6 +1055,21 @@ class Fn:
             if v.ty.kind in ("idxtuple", "idxarr"):
                 return Val(f"(Py.np_unique {v.code})", IDXARR)
             self.bad(e, f"unique of {v.ty}")
+        if np_("sort") and len(args) == 1 and (not kw or (list(kw) == ["kind"] and isinstance(kw["kind"], ast.Constant)
+                                                      and kw["kind"].value == "stable")) \
+                and isinstance(args[0], ast.Subscript) and isinstance(args[0].slice, ast.Constant) and args[0].slice.value == 1 \
+                and isinstance(args[0].value, ast.Call) and dotted(args[0].value.func) in ("numpy.unique", "np.unique"):
+            u = args[0].value
+            ukw = {k_.arg: k_.value for k_ in u.keywords}
+            if len(u.args) == 1 and isinstance(ukw.get("return_index"), ast.Constant) and ukw["return_index"].value is True \
+                    and set(ukw) <= {"return_index", "axis"} and (("axis" not in ukw) or (
+                        isinstance(ukw["axis"], ast.Constant) and ukw["axis"].value == 0)):
+                x = self.expr(u.args[0], env)
+                rows = x.ty.kind == "list" and x.ty.item.kind == "list"
+                if x.ty.kind == "list" and (("axis" in ukw) == rows):
+                    # the indices of the first occurrences of the distinct values (rows, with axis=0), ascending
+                    return Val(f"(Py.firstIdx {x.code})", IDXARR)
+            self.bad(e, "sort(unique(...)[1]) in another form than unique(x, return_index=True[, axis=0]) of a flat array / of rows")
         if np_("sort") and len(args) == 1 and not kw:
             v = A(0)
             if v.ty.kind == "list" and v.ty.item.kind in ("f64", "int"):
@@ -987,9 +1147,36 @@ class Fn:
             a, b = A(0), A(1)
             return Val(f"(Py.range {self.to_int(a, e)} {self.to_int(b, e)})", LIST(INT))
         if fn == "calendar.isleap" and len(args) == 1:
-            return Val(f"(Py.isleap {self.to_int(A(0), e)})", BOOL)
+            v = A(0)
+            if v.ty.kind == "f64":
+                return Val(f"(Py.isleapF {v.code})", BOOL)     # an integer-valued float year
+            return Val(f"(Py.isleap {self.to_int(v, e)})", BOOL)
+        if fn == "datetime.timedelta" and not args and list(kw) in (["seconds"], ["microseconds"]):
+            v = self.expr(kw[list(kw)[0]], env)
+            if v.ty.kind == "f64":
+                return Val(f"(Py.timedeltaOf{list(kw)[0].capitalize()}F {v.code})", TIMEDELTA)
+            self.bad(e, f"timedelta({list(kw)[0]}=…) of {v.ty}")
         if fn == "calendar.monthrange" and len(args) == 2:
             return Val(f"(Py.monthrangeDays {self.to_int(A(0), e)} {self.to_int(A(1), e)})", Ty("monthrange"))
+        if fn == "datetime.timedelta" and ((len(args) == 3 and not kw) or (not args and len(kw) == 1 and
+                                                                          list(kw)[0] in ("days", "hours", "minutes"))):
+            unit = {"days": 86400000000, "hours": 3600000000, "minutes": 60000000}
+            vs_ = [self.expr(x_, env) for x_ in (args or list(kw.values()))]
+            if all(v_.lit is not None and isinstance(v_.lit, int) for v_ in vs_):
+                tot = (vs_[0].lit * 86400000000 + vs_[1].lit * 1000000 + vs_[2].lit) if args else vs_[0].lit * unit[list(kw)[0]]
+                return Val(f"({tot} : Int)", TIMEDELTA, lit=None)
+            self.bad(e, "timedelta with non-literal arguments")
+        if fn == "datetime.timedelta" and len(args) == 1 and not kw:
+            v = A(0)
+            if v.ty.kind in ("int", "nat"):
+                return Val(f"((86400000000 : Int) * {self.to_int(v, e)})", TIMEDELTA)      # timedelta(days)
+            self.bad(e, f"timedelta of {v.ty}")
+        sc_ = self.spec.get("self_calls", {})
+        if fn in sc_ and not kw:
+            # `self.<method>(…)` that returns self after storing one argument (TARGETS.self_calls): stands for that argument
+            r = Val(None, Ty("selfcall"))
+            r.arg = self.expr(args[sc_[fn]], env)
+            return r
         if fn == "datetime.datetime" and len(args) == 7 and not kw:
             return Val("(Py.mkDatetime " + " ".join(self.to_int(A(i), e) for i in range(7)) + ")", DATETIME)
         if fn == "datetime.datetime.fromtimestamp" and len(args) == 2 and dotted(args[1]) == "datetime.timezone.utc":
@@ -1018,6 +1205,25 @@ class Fn:
             if v.ty.kind == "ma" and v.ty.item.kind == "real" and f in ("log", "exp") and not ext:
                 return Val(f"(Py.ma_{f} {v.code})", v.ty)
             self.bad(e, f"{f} of {v.ty}")
+        if np_("sum") and len(args) == 1 and set(kw) <= {"axis"} and (lambda v: v.ty.kind == "list" and (
+                v.ty.item.kind == "q" or (v.ty.item.kind == "list" and v.ty.item.item.kind == "q")))(A(0)):
+            # exact layer: the order of a sum is irrelevant
+            v = A(0)
+            ax = kw.get("axis")
+            axv = ax.value if isinstance(ax, ast.Constant) else None
+            if ax is not None and axv not in (0, 1):
+                self.bad(e, "numpy.sum with a non-literal axis")
+            if v.ty.item.kind == "q":
+                if axv in (None, 0):
+                    return Val(f"(Py.qsum {v.code})", Q)
+                self.bad(e, "axis=1 of a flat array")
+            if axv is None:
+                return Val(f"(Py.qsum (List.map Py.qsum {v.code}))", Q)
+            if axv == 1:
+                return Val(f"(List.map Py.qsum {v.code})", LIST(Q))
+            return Val(f"(Py.qsumAxis0 {v.code})", LIST(Q))
+        if np_("copy") and len(args) == 1 and not kw:
+            return A(0)         # a copy: values are immutable here
         if np_("sum") and len(args) == 1 and not kw:
             v = A(0)
             return self.sum_of(v, e)
@@ -1087,6 +1293,10 @@ class Fn:
         if ty.kind == "option":
             if v.ty.kind == "nan":
                 return "none"
+            if v.ty.kind in ("object", "record") and self.spec.get("self_calls"):
+                return "none"       # `return self` without a call of the methods of TARGETS.self_calls
+            if v.ty.kind == "selfcall":
+                return f"(some {self.embed_val(v.arg, ty.item, at)})"
             return f"(some {self.embed_val(v, ty.item, at)})"
         return self.embed_val(v, ty, at)
 
@@ -1133,6 +1343,12 @@ class Fn:
                 elif isinstance(n, ast.For):
                     tg = [n.target]
                 for t in tg:
+                    if isinstance(t, ast.Subscript) and isinstance(t.value, ast.Name) and isinstance(t.slice, ast.Constant) \
+                            and isinstance(t.slice.value, str):
+                        key_ = f"{t.value.id}[{t.slice.value!r}]"
+                        if key_ not in out:
+                            out.append(key_)        # a field of a structured record (`line['second'] -= 60.`)
+                        continue
                     while isinstance(t, ast.Subscript):
                         t = t.value
                     if isinstance(t, ast.Attribute) and isinstance(t.value, ast.Name):
@@ -1174,6 +1390,19 @@ class Fn:
         if isinstance(s, ast.Return):
             if s.value is None:
                 self.bad(s, "bare return")
+            if isinstance(s.value, ast.Call):
+                cal = self.find_callee(dotted(s.value.func))
+                if cal is not None and (self.tr.results.get(cal["lean"]) or {}).get("raises", False) and self.raises \
+                        and not self.optional and "ret" not in self.spec:
+                    # return f(…) with f a translated function that can raise: its result, exception included
+                    vs = [self.expr(a_, env) for a_ in s.value.args]
+                    kw_ = {k_.arg: k_.value for k_ in s.value.keywords}
+                    v = self.tr.call(self, cal, vs, kw_, s.value, env, allow_raise=True)
+                    rt = v.ty.with_elem(False)
+                    if self.ret_ty is not None and self.ret_ty != rt:
+                        self.bad(s, f"return types differ: {self.ret_ty} and {rt}")
+                    self.ret_ty = rt
+                    return pad + v.code
             if "ret" in self.spec:
                 # declared result type (TARGETS.ret): every returned value is embedded into it (finite -> ELL.fin,
                 # numpy.nan in an Option position -> none, a value there -> some)
@@ -1187,7 +1416,7 @@ class Fn:
                 return pad + (f"(Except.ok none)" if self.raises else "none")
             if v.is_static and v.code is None:
                 self.bad(s, f"return of a {v.ty} constant")
-            if v.ty.kind not in ("f64", "int", "nat", "bool", "real", "ereal", "list", "tuple", "datetime", "timedelta",
+            if v.ty.kind not in ("string", "f64", "q", "int", "nat", "bool", "real", "ereal", "list", "tuple", "datetime", "timedelta",
                                  "option"):
                 self.bad(s, f"return of {v.ty}")
             rt = v.ty.with_elem(False)
@@ -1210,8 +1439,53 @@ class Fn:
             if len(s.targets) != 1:
                 self.bad(s, "multiple assignment targets")
             t = s.targets[0]
+            sv = s.value
+            # a call of a raising translated function nested inside the expression is evaluated first, in a temporary
+            inner = [n for n in ast.walk(sv) if n is not sv and isinstance(n, ast.Call)
+                     and ((lambda c_: c_ is not None and (self.tr.results.get(c_["lean"]) or {}).get("raises", False))(
+                         self.find_callee(dotted(n.func)))
+                          or (self.spec.get("checked_datetime") and dotted(n.func) == "datetime.datetime" and len(n.args) == 6))]
+            if len(inner) == 1 and self.raises:
+                tmpn = self.fresh("h")
+
+                class _Rep(ast.NodeTransformer):
+                    def visit_Call(self_, n_):
+                        if n_ is inner[0]:
+                            return ast.copy_location(ast.Name(id=tmpn, ctx=ast.Load()), n_)
+                        return self_.generic_visit(n_)
+                pre = ast.copy_location(ast.Assign(targets=[ast.Name(id=tmpn, ctx=ast.Store())], value=inner[0]), s)
+                new = ast.copy_location(ast.Assign(targets=s.targets, value=_Rep().visit(sv)), s)
+                ast.fix_missing_locations(pre), ast.fix_missing_locations(new)
+                return self.block([pre, new] + rest, env, k, ind)
+            if self.spec.get("checked_datetime") and isinstance(t, ast.Name) and isinstance(sv, ast.Call) \
+                    and dotted(sv.func) == "datetime.datetime" and len(sv.args) == 6 and not sv.keywords:
+                # x = datetime.datetime(y, m, d, H, M, S): ValueError for fields outside the calendar / clock ranges
+                if not self.raises:
+                    self.bad(s, "datetime constructor in a definition declared not to raise")
+                codes = [self.to_int(self.expr(a_, env), s) for a_ in sv.args]
+                tmp = self.fresh("r")
+                env2 = dict(env)
+                env2[t.id] = Val(mangle(t.id), DATETIME)
+                return (f"{pad}match (Py.mkDatetimeChecked " + " ".join(codes) + f" (0 : Int)) with\n"
+                        f"{pad}| .error e_ => (Except.error e_)\n{pad}| .ok {tmp} =>\n"
+                        f"{pad}  let {mangle(t.id)} := {tmp};\n" + self.block(rest, env2, k, ind + 1))
+            if isinstance(t, ast.Name) and isinstance(sv, ast.Call) and isinstance(sv.func, ast.Attribute) \
+                    and sv.func.attr == "replace" and not sv.args and [k_.arg for k_ in sv.keywords] == ["tzinfo"] \
+                    and dotted(sv.keywords[0].value) == "datetime.timezone.utc" and isinstance(sv.func.value, ast.Call) \
+                    and dotted(sv.func.value.func) == "datetime.datetime.strptime" and len(sv.func.value.args) == 2 \
+                    and not sv.func.value.keywords:
+                # x = datetime.datetime.strptime(s, fmt).replace(tzinfo=datetime.timezone.utc): ValueError propagates
+                if not self.raises:
+                    self.bad(s, "strptime in a definition declared not to raise")
+                a_, f_ = [self.expr(x_, env) for x_ in sv.func.value.args]
+                tmp = self.fresh("r")
+                env2 = dict(env)
+                env2[t.id] = Val(mangle(t.id), DATETIME)
+                return (f"{pad}match (Py.strptimeUtc {self.to_string(a_, s)} {self.to_string(f_, s)}) with\n"
+                        f"{pad}| .error e_ => (Except.error e_)\n{pad}| .ok {tmp} =>\n"
+                        f"{pad}  let {mangle(t.id)} := {tmp};\n" + self.block(rest, env2, k, ind + 1))
             if isinstance(s.value, ast.Call) and isinstance(t, ast.Name):
-                cal = self.tr.callee(self.relfile, dotted(s.value.func))
+                cal = self.find_callee(dotted(s.value.func))
                 if cal is not None and (self.tr.results.get(cal["lean"]) or {}).get("raises", False):
                     # x = f(…) with f a translated function that can raise: the exception propagates
                     if not self.raises:
@@ -1264,6 +1538,22 @@ class Fn:
                 newv = self.coerce(v, cur.ty, s)
                 return self.bind(name, Val(f"(if {mask.code} then {newv} else {cur.code})", cur.ty), env, go, pad, s)
             self.bad(s, "assignment target")
+        if isinstance(s, (ast.AugAssign, ast.Assign)) and (lambda t_: isinstance(t_, ast.Subscript) and isinstance(t_.value, ast.Name)
+                and t_.value.id in env and env[t_.value.id].ty.kind == "fieldrec" and isinstance(t_.slice, ast.Constant)
+                and isinstance(t_.slice.value, str))(s.target if isinstance(s, ast.AugAssign) else s.targets[0]):
+            t_ = s.target if isinstance(s, ast.AugAssign) else s.targets[0]
+            key_ = f"{t_.value.id}[{t_.slice.value!r}]"
+            fty = self.field_types[key_]
+            v = self.expr(s.value, env)
+            if isinstance(s, ast.AugAssign):
+                v = self.arith(s.op, env[key_], v, s)
+            if v.ty.kind == "f64" and fty.kind == "int":
+                v = Val(f"(Py.truncF {v.code})", INT)        # numpy casts the float into the integer field (truncation)
+            code = self.coerce(v, fty, s)
+            env2 = dict(env)
+            nm_ = mangle(key_)
+            env2[key_] = Val(nm_, fty)
+            return f"{pad}let {nm_} := {code};\n" + self.block(rest, env2, k, ind)
         if isinstance(s, ast.AugAssign) and isinstance(s.target, ast.Name):
             cur = self.expr(s.target, env)
             v = self.lifted(s.op, cur, self.expr(s.value, env), s)
@@ -1308,7 +1598,9 @@ class Fn:
             tys = {}
             for nm in names:
                 ta, tb = ends[0][nm].ty, ends[1][nm].ty
-                if ta == tb:
+                if {ta.kind, tb.kind} <= {"str", "string"}:
+                    tys[nm] = STRING     # a string that depends on the branch taken: a value
+                elif ta == tb:
                     tys[nm] = ta.with_elem(ta.elem or tb.elem)
                 elif {ta.kind, tb.kind} <= {"real", "nat", "int"} and "real" in (ta.kind, tb.kind):
                     tys[nm] = Ty("real", ta.elem or tb.elem)     # int(n_obs) in one branch, numpy.sum(float array) in the other
@@ -1334,6 +1626,26 @@ class Fn:
                     env2[nm] = Val(mangle(nm), tys[nm])
                     out += f"{pad}let {mangle(nm)} := {proj};\n"
             return out + self.block(rest, env2, k, ind)
+        if isinstance(s, ast.Try) and not s.orelse and not s.finalbody and len(s.handlers) == 1 \
+                and s.handlers[0].type is None and all(isinstance(h_, ast.Pass) for h_ in s.handlers[0].body) \
+                and len(s.body) == 2 and isinstance(s.body[0], ast.Assign) and isinstance(s.body[1], ast.Return) \
+                and isinstance(s.body[0].value, ast.Call) and len(s.body[0].targets) == 1 \
+                and isinstance(s.body[0].targets[0], ast.Name) and isinstance(s.body[1].value, ast.Name) \
+                and s.body[1].value.id == s.body[0].targets[0].id:
+            # try: x = f(…); return x / except: pass — the value if f returns, the following statements if f raises
+            cal = self.find_callee(dotted(s.body[0].value.func))
+            if cal is None or not (self.tr.results.get(cal["lean"]) or {}).get("raises", False) or not self.raises:
+                self.bad(s, "try around something other than a call of a raising translated function")
+            vs = [self.expr(a_, env) for a_ in s.body[0].value.args]
+            kw_ = {k_.arg: k_.value for k_ in s.body[0].value.keywords}
+            v = self.tr.call(self, cal, vs, kw_, s.body[0].value, env, allow_raise=True)
+            rt = v.ty.with_elem(False)
+            if self.ret_ty is not None and self.ret_ty != rt:
+                self.bad(s, f"return types differ: {self.ret_ty} and {rt}")
+            self.ret_ty = rt
+            tmp = self.fresh("r")
+            return (f"{pad}match {v.code} with\n{pad}| .ok {tmp} => (Except.ok {tmp})\n{pad}| .error _ =>\n"
+                    + self.block(rest, env, k, ind + 1))
         if isinstance(s, ast.With):
             for it in s.items:
                 if not (isinstance(it.context_expr, ast.Call) and dotted(it.context_expr.func) in ("numpy.errstate", "np.errstate")
@@ -1369,6 +1681,10 @@ class Fn:
             env2 = dict(env)
             env2[name] = v
             return go(env2)
+        if v.ty.kind == "selfcall":
+            env2 = dict(env)
+            env2[name] = v
+            return go(env2)
         if v.ty.kind in ("idxtuple", "idxarr"):
             env2 = dict(env)
             env2[name] = Val(mangle(name), v.ty)
@@ -1380,6 +1696,8 @@ class Fn:
         env2[name] = Val(mangle(name), v.ty, lit=v.lit)
         if getattr(v, "dict_keys", None):
             env2[name].dict_keys = v.dict_keys
+        if getattr(v, "src_expr", None):
+            env2[name].src_expr = v.src_expr      # a plain copy of an expression parameter
         return f"{pad}let {mangle(name)} := {v.code};\n" + go(env2)
 
     # ---------------------------------------------------------------- whole function
@@ -1398,6 +1716,16 @@ class Fn:
         env, lean_params = {}, []
         for a in argnames:
             t = params[a]
+            if isinstance(t, dict) and "fields" in t:
+                # one row of a numpy structured array: every field is a parameter; a store casts to the field's dtype
+                env[a] = Val(None, Ty("fieldrec"), static="fieldrec")
+                self.field_types = getattr(self, "field_types", {})
+                for key_, ty_ in t["fields"].items():
+                    k_ = f"{a}[{key_!r}]"
+                    env[k_] = Val(mangle(f"{a}_{key_}"), ty_)
+                    self.field_types[k_] = ty_
+                    lean_params.append((mangle(f"{a}_{key_}"), ty_))
+                continue
             if isinstance(t, dict):   # static value
                 v = t["static"]
                 env[a] = Val(None, NONE if v is None else (BOOL if isinstance(v, bool) else
@@ -1407,6 +1735,9 @@ class Fn:
                 continue
             if t.kind == "none":
                 env[a] = Val(None, NONE, static=None)
+                continue
+            if t.kind == "record":
+                env[a] = Val(None, t, static="record")
                 continue
             if t.kind in ("unused", "object"):
                 # unused: not read by the sliced statements; object: only read through the expressions of
@@ -1441,9 +1772,12 @@ class Fn:
         def calls_raising(n):
             if not isinstance(n, ast.Call):
                 return False
-            cal = self.tr.callee(self.relfile, dotted(n.func))
+            cal = self.find_callee(dotted(n.func))
             return cal is not None and (self.tr.results.get(cal["lean"]) or {}).get("raises", False)
-        self.raises = any(isinstance(n, ast.Raise) or calls_raising(n) for s in body for n in ast.walk(s)) \
+        self.raises = any(isinstance(n, ast.Raise) or calls_raising(n) or
+                          (isinstance(n, ast.Call) and dotted(n.func) == "datetime.datetime.strptime") or
+                          (isinstance(n, ast.Call) and dotted(n.func) == "datetime.datetime" and spec.get("checked_datetime"))
+                          for s in body for n in ast.walk(s)) \
             and spec.get("raises", True)
 
         def k_end(env_end):
@@ -1473,7 +1807,7 @@ class Fn:
                        [f"({a} : {t.lean()})" for a, t in lean_params])
         head = [f"/-- `{self.name}` — {self.relfile}:{node.lineno}-{node.end_lineno}",
                 "    specialisation: " + ", ".join(
-                    f"{a} : {params[a] if not isinstance(params[a], dict) else '= ' + repr(params[a]['static'])}"
+                    f"{a} : {params[a] if not isinstance(params[a], dict) else ('record ' + str(params[a]['fields']) if 'fields' in params[a] else '= ' + repr(params[a]['static']))}"
                     for a in argnames)]
         for n in self.notes:
             head.append("    " + n)
@@ -1545,6 +1879,23 @@ TARGETS = [
          also=["C14", "C04"], params=dict(epoch_time_milli=INT), statics={"os.name": "posix"}),
     dict(file="csep/utils/time_utils.py", func="decimal_year", lean="decimal_year", prop="C15", also=[],
          params=dict(test_date=DATETIME)),
+    dict(file="csep/utils/time_utils.py", func="parse_string_format", lean="parse_string_format", prop="C15", also=[],
+         params=dict(time_string=STRING)),
+    dict(file="csep/utils/time_utils.py", func="strptime_to_utc_datetime", lean="strptime_to_utc_datetime", prop="C15", also=[],
+         params=dict(time_string=STRING, format=STRING)),
+    dict(file="csep/utils/time_utils.py", func="strptime_to_utc_epoch", lean="strptime_to_utc_epoch", prop="C15", also=[],
+         params=dict(time_string=STRING, format=STRING)),
+    dict(file="csep/utils/time_utils.py", func="millis_to_days", lean="millis_to_days", prop="C15", also=[], params=dict(millis=INT)),
+    dict(file="csep/utils/time_utils.py", func="days_to_millis", lean="days_to_millis_f", prop="C15", also=[],
+         label="days_to_millis[float]", params=dict(days=F64)),
+    dict(file="csep/utils/time_utils.py", func="days_to_millis", lean="days_to_millis_i", prop="C15", also=[],
+         label="days_to_millis[int]", params=dict(days=INT)),
+    dict(file="csep/utils/time_utils.py", func="timedelta_from_years", lean="timedelta_from_years", prop="C15", also=[],
+         params=dict(time_in_years=F64)),
+    dict(file="csep/utils/time_utils.py", func="decimal_year_to_utc_datetime", lean="decimal_year_to_utc_datetime", prop="C15",
+         also=[], params=dict(decimal_date=F64)),
+    dict(file="csep/utils/time_utils.py", func="decimal_year_to_utc_epoch", lean="decimal_year_to_utc_epoch", prop="C15",
+         also=[], params=dict(decimal_date=F64)),
     dict(file="csep/core/poisson_evaluations.py", func="_number_test_ndarray", lean="number_test_ndarray", prop="C07", also=[],
          params=dict(fore_cnt=REAL, obs_cnt=NAT, epsilon=REAL),
          opaque={"scipy.stats.poisson.cdf": dict(lean="poisson_cdf", sig="α → α → α", args=[REAL, REAL], ret=REAL)}),
@@ -1634,6 +1985,62 @@ TARGETS = [
          also=[], params=dict(forecast=OBJECT, catalog=OBJECT),
          expr_params={"catalog.event_count": ("n_cat", NAT), "forecast.event_count": ("n_fore", REAL),
                       "forecast.spatial_counts()": ("fore_sc", LIST(REAL)), "catalog.spatial_counts()": ("cat_sc", LIST(NAT))}),
+    # C11 (csep/core/forecasts.py), EXACT layer: the hand model (Model/ForecastFile.lean) reads rates and factors as the rationals
+    # they denote and multiplies / sums them without rounding; so does the translation (type `q`). A 2-D array is its list of rows.
+    dict(file="csep/core/forecasts.py", func="GriddedDataSet.data", lean="gds_data", prop="C11", also=[],
+         params=dict(self=OBJECT), expr_params={"self._data": ("data'", LIST(LIST(Q))), "self._scale": ("scale'", Q)}),
+    dict(file="csep/core/forecasts.py", func="GriddedDataSet.sum", lean="gds_sum", prop="C11", also=[],
+         params=dict(self=OBJECT), expr_params={"self.data": ("data'", LIST(LIST(Q)))}),
+    dict(file="csep/core/forecasts.py", func="GriddedDataSet.scale", lean="gds_scale", prop="C11", also=[],
+         params=dict(self=RECORD, val=Q), slice_result="self._scale"),
+    dict(file="csep/core/forecasts.py", func="MarkedGriddedDataSet.spatial_counts", lean="mgds_spatial_counts", prop="C11",
+         also=[], params=dict(self=OBJECT, cartesian={"static": False}), expr_params={"self.data": ("data'", LIST(LIST(Q)))}),
+    dict(file="csep/core/forecasts.py", func="MarkedGriddedDataSet.magnitude_counts", lean="mgds_magnitude_counts", prop="C11",
+         also=[], params=dict(self=OBJECT), expr_params={"self.data": ("data'", LIST(LIST(Q)))}),
+    dict(file="csep/core/forecasts.py", func="MarkedGriddedDataSet.get_magnitude_index", lean="get_magnitude_index", prop="C11",
+         also=[], params=dict(self=OBJECT, mags=LIST(F64), tol={"static": None}),
+         expr_params={"self.magnitudes": ("magnitudes", LIST(F64))}),
+    dict(file="csep/core/forecasts.py", func="GriddedForecast.get_rates", lean="get_rates", prop="C11", also=[],
+         label="get_rates[data=None]",
+         params=dict(self=OBJECT, lons=LIST(F64), lats=LIST(F64), mags=LIST(F64), data={"static": None}, ret_inds={"static": False}),
+         expr_params={"self.get_index_of(lons, lats)": ("idx", LIST(INT)), "self.get_magnitude_index(mags)": ("idm", LIST(INT)),
+                      "self.data": ("data'", LIST(LIST(Q)))}),
+    dict(file="csep/core/forecasts.py", func="GriddedForecast.get_rates", lean="get_rates_data", prop="C11", also=[],
+         label="get_rates[data]",
+         params=dict(self=OBJECT, lons=LIST(F64), lats=LIST(F64), mags=LIST(F64), data=LIST(LIST(Q)), ret_inds={"static": False}),
+         expr_params={"self.get_index_of(lons, lats)": ("idx", LIST(INT)), "self.get_magnitude_index(mags)": ("idm", LIST(INT)),
+                      "self.data": ("data'", LIST(LIST(Q)))}),
+    # target_event_rates: the catalog is read through its three coordinate getters; the rates through get_rates (data passed)
+    dict(file="csep/core/forecasts.py", func="GriddedForecast.target_event_rates", lean="target_event_rates", prop="C11", also=[],
+         params=dict(self=OBJECT, target_catalog=OBJECT, scale=BOOL),
+         static_exprs={"isinstance(target_catalog, AbstractBaseCatalog)": True},
+         callees={"self.get_rates": "get_rates_data"},
+         expr_params={"self.data": ("data'", LIST(LIST(Q))), "(self.end_time - self.start_time).days": ("elapsed_days", INT),
+                      "target_catalog.get_longitudes()": ("lons'", LIST(F64)), "target_catalog.get_latitudes()": ("lats'", LIST(F64)),
+                      "target_catalog.get_magnitudes()": ("mags'", LIST(F64)),
+                      "self.get_index_of(target_catalog.get_longitudes(), target_catalog.get_latitudes())": ("idx", LIST(INT)),
+                      "self.get_magnitude_index(target_catalog.get_magnitudes())": ("idm", LIST(INT))}),
+    # load_ascii: backward slice of the row -> (cell, magnitude bin) mapping; the file content (numpy.loadtxt) is a parameter
+    dict(file="csep/core/forecasts.py", func="GriddedForecast.load_ascii", lean="load_ascii", prop="C11", also=[],
+         slice_result="(bboxes, poly_mask, mws, data[:, -2])",
+         params=dict(cls=UNUSED, ascii_fname=OBJECT, start_date=UNUSED, end_date=UNUSED, name=UNUSED, swap_latlon=BOOL),
+         expr_params={"numpy.loadtxt(ascii_fname, ndmin=2)": ("rows", LIST(LIST(Q)))}),
+    # scale_to_test_date: `some q` = `self.scale(q)` is called, `none` = `return self` unchanged
+    dict(file="csep/core/forecasts.py", func="GriddedForecast.scale_to_test_date", lean="scale_to_test_date", prop="C11", also=[],
+         params=dict(self=OBJECT, test_datetime=DATETIME), ret=OPTION(F64), self_calls={"self.scale": 0},
+         expr_params={"self.end_time": ("end_time", DATETIME), "self.start_time": ("start_time", DATETIME)}),
+    # C19: per-record body of zmap_ascii (the loop over the rows of numpy.loadtxt): float64 columns, at least 10 of them
+    dict(file="csep/utils/readers.py", func="zmap_ascii", lean="zmap_record", prop="C19", also=[], label="zmap_ascii[record]",
+         for_body="(event_id, line)", slice_call="out.append", checked_datetime=True,
+         params=dict(event_id=INT, line=LIST(F64))),
+    # C19: the time-string parser nested in csep_ascii (two formats tried in turn; CSEPIOException = Err.other)
+    dict(file="csep/utils/readers.py", func="csep_ascii.parse_datetime", lean="reader_parse_datetime", prop="C19", also=[],
+         params=dict(dt_string=STRING)),
+    # C19: per-record body of ingv_horus: one row of the structured array (int32 / float64 fields), the second-60 carries
+    dict(file="csep/utils/readers.py", func="ingv_horus", lean="horus_record", prop="C19", also=[], label="ingv_horus[record]",
+         for_body="(n, line)", slice_call="out.append", checked_datetime=True,
+         params=dict(n=INT, line={"fields": dict(year=INT, month=INT, day=INT, hour=INT, minute=INT, second=F64, lat=F64,
+                                                 lon=F64, depth=F64, Mw=F64)})),
     # C09: float64 sample, float64 query, `cdf` not passed (the precomputed-ecdf argument is only used by binned_ecdf)
     dict(file="csep/utils/stats.py", func="ecdf", lean="ecdf", prop="C09", also=[], params=dict(x=LIST(F64))),
     dict(file="csep/utils/stats.py", func="greater_equal_ecdf", lean="greater_equal_ecdf", prop="C09", also=[],
@@ -1696,9 +2103,12 @@ class Translator:
                     return Val(rat_lit(Fraction(v)), F64, lit=v)
         return None
 
-    def callee(self, rel, fn):
+    def callee(self, rel, fn, caller_spec=None):
         if fn is None:
             return None
+        if caller_spec is not None and fn in caller_spec.get("callees", {}):
+            # a method call on self: TARGETS names the specialisation of the method that is meant
+            return next(t for t in self.targets if t["lean"] == caller_spec["callees"][fn])
         for t in self.targets:
             if t["file"] == rel and t["func"] == fn:
                 return t
@@ -1719,6 +2129,9 @@ class Translator:
         # keyword arguments name parameters of the callee (in any order); statically fixed parameters must be given the
         # value they are fixed to
         vals = list(vals)
+        if isinstance(node, ast.Call) and isinstance(node.func, ast.Attribute) and isinstance(node.func.value, ast.Name) \
+                and node.func.value.id == "self" and ps and ps[0][0] == "self" and "self" in env:
+            vals = [env["self"]] + vals
         if len(vals) > len(ps):
             caller.bad(node, f"call of {spec['func']} with other arguments than its specialisation")
         byname = dict(zip([a for a, _ in ps], vals))
@@ -1727,6 +2140,9 @@ class Translator:
             if t_ is None or k_ in byname:
                 caller.bad(node, f"call of {spec['func']}: unexpected keyword {k_}")
             if isinstance(t_, dict):
+                cv_ = caller.expr(node_, env) if isinstance(node_, ast.Name) else None
+                if cv_ is not None and cv_.is_static and cv_.static == t_["static"]:
+                    continue
                 if not (isinstance(node_, ast.Constant) and node_.value == t_["static"]):
                     caller.bad(node, f"call of {spec['func']}: keyword {k_} is fixed to {t_['static']!r} in its specialisation")
                 continue
@@ -1772,17 +2188,32 @@ class Translator:
                 if v.lit is not None and t.kind in ("real", "f64"):
                     codes.append(caller.coerce(v, t, node))     # a literal is converted exactly
                     continue
+                if v.ty.kind == "str" and t.kind == "string" and v.is_static:
+                    codes.append(caller.to_string(v, node))     # a string constant where the callee takes a string value
+                    continue
                 if v.ty.kind in ("nat", "int") and t.kind == "real" and not t.elem:
                     codes.append(caller.to_real(v, node))       # a Python int where the callee computes in floats
                     continue
                 caller.bad(node, f"call of {spec['func']}: argument {a} has type {v.ty}, specialised for {t}")
             codes.append(v.code)
         # what the callee reads through its object parameters must be a parameter of the caller under the same expression
+        argsrc = {}
+        for a_, v_ in byname.items():
+            if getattr(v_, "src_expr", None):
+                argsrc[a_] = v_.src_expr            # the argument is (a copy of) an expression parameter of the caller
+            elif isinstance(v_, Val) and v_.code in caller.param_vals and caller.param_vals[v_.code] is v_:
+                argsrc[a_] = v_.code
         for src_, (nm_, ty_) in spec.get("expr_params", {}).items():
             tree_ = ast.parse(src_, mode="eval")
-            for n_ in ast.walk(tree_):
-                if isinstance(n_, ast.Name) and n_.id in objmap:
-                    n_.id = objmap[n_.id]
+
+            class _Sub(ast.NodeTransformer):
+                def visit_Name(self, n_):
+                    if n_.id in objmap:
+                        return ast.copy_location(ast.Name(id=objmap[n_.id], ctx=n_.ctx), n_)
+                    if n_.id in argsrc:
+                        return ast.parse(argsrc[n_.id], mode="eval").body
+                    return n_
+            tree_ = ast.fix_missing_locations(_Sub().visit(tree_))
             mine_ = caller.spec.get("expr_params", {}).get(ast.unparse(tree_))
             if mine_ is None or mine_[1] != ty_:
                 caller.bad(node, f"call of {spec['func']}: `{ast.unparse(tree_)}` : {ty_} is not a parameter of the caller")
@@ -1809,6 +2240,9 @@ class Translator:
                 node = self.find(spec["file"], spec["func"])
                 if node is None:
                     raise Untranslatable(spec["func"], 0, f"function not found in {spec['file']}")
+                if "for_body" in spec:
+                    spec = dict(spec)
+                    node = self.for_body(spec, node)
                 node = self.prepare(spec, node)
                 try:
                     fn = Fn(self, spec, node, spec["file"])
@@ -1824,6 +2258,29 @@ class Translator:
             except (OSError, SyntaxError) as e:
                 self.results[name] = dict(status="untranslatable", reason=f"cannot read source: {e}", spec=spec)
         return self.results
+
+    def for_body(self, spec, node):
+        """TARGETS.for_body = text of a loop target: the definition is the BODY of that `for` statement of the function, as a
+        function of the loop variables (the per-record body of a reader). Integer members of nested Enum classes
+        (`Cls.Name.value`) become statics."""
+        loops = [n for n in ast.walk(node) if isinstance(n, ast.For) and ast.unparse(n.target) == spec["for_body"]]
+        if len(loops) != 1:
+            raise Untranslatable(spec["func"], node.lineno, f"expected exactly one `for {spec['for_body']} in …`")
+        lp = loops[0]
+        names = [n.id for n in ast.walk(lp.target) if isinstance(n, ast.Name)]
+        statics = dict(spec.get("statics", {}))
+        for c in ast.walk(node):
+            if isinstance(c, ast.ClassDef):
+                for a in c.body:
+                    if isinstance(a, ast.Assign) and len(a.targets) == 1 and isinstance(a.targets[0], ast.Name) \
+                            and isinstance(a.value, ast.Constant) and isinstance(a.value.value, int):
+                        statics[f"{c.name}.{a.targets[0].id}.value"] = a.value.value
+        spec["statics"] = statics
+        new = ast.FunctionDef(name=node.name, args=ast.arguments(posonlyargs=[], args=[ast.arg(arg=n) for n in names],
+                                                                 kwonlyargs=[], kw_defaults=[], defaults=[]),
+                              body=list(lp.body), decorator_list=[], returns=None, lineno=lp.lineno,
+                              end_lineno=lp.end_lineno, col_offset=0)
+        return ast.fix_missing_locations(new)
 
     def prepare(self, spec, node):
         """nested helper definitions declared opaque in TARGETS (e.g. `num_decimals`, whose value comes from `repr`) are
